@@ -1061,9 +1061,7 @@ def _read_fstr(ctx: ReaderContext) -> str | llist.PersistentList:
             reader.next_char()
             elems.append("".join(s))
             s = []
-            expr = _read_next(ctx)
-            if expr is ctx.eof:
-                raise ctx.eof_error("Unexpected EOF in string")
+            expr = _read_next_form(ctx, "string")
             elems.append(expr)
             char = _consume_whitespace(ctx)
             if char != "}":
